@@ -2,7 +2,7 @@ use crate::binary::sender::SenderKind;
 use crate::configs::tcp::TcpTlsConfig;
 use crate::streaming::clients::client_manager::Transport;
 use crate::streaming::systems::system::SharedSystem;
-use crate::tcp::connection_handler::{handle_connection, handle_error};
+use crate::tcp::connection_handler::{handle_error, run_connection};
 use std::net::SocketAddr;
 use tokio::net::TcpSocket;
 use tokio::sync::oneshot;
@@ -76,7 +76,7 @@ pub(crate) async fn start(
                     let mut sender = SenderKind::get_tcp_tls_sender(stream);
                     tokio::spawn(async move {
                         if let Err(error) =
-                            handle_connection(session, &mut sender, system.clone()).await
+                            run_connection(session, &mut sender, system.clone()).await
                         {
                             handle_error(error);
                             system.read().await.delete_client(client_id).await;
